@@ -66,22 +66,25 @@ package errutil
 //@   ensures[C03] typeis(result2, *errorspb.StringPayload) && rsafe(result2.(*errorspb.StringPayload).Msg)
 
 //@ func decodeLeaf
-//@   props C05 C01 C03
+//@   props C05 C01 C03 C06
 //@   requires[C03] typeis(payload, *errorspb.StringPayload) ==> rsafe(payload.(*errorspb.StringPayload).Msg)
+//@   requires[C06] typeis(payload, *errorspb.StringPayload) ==> wfR(payload.(*errorspb.StringPayload).Msg)
 //@   ensures !typeis(payload, *errorspb.StringPayload) ==> result == nil
 //@   ensures typeis(payload, *errorspb.StringPayload) ==> typeis(result, *leafError) && result.(*leafError).msg == payload.(*errorspb.StringPayload).Msg
 
 //@ func decodeWithPrefix
-//@   props C05 C01 C03
+//@   props C05 C01 C03 C06
 //@   requires cause != nil
 //@   requires[C03] typeis(payload, *errorspb.StringPayload) ==> rsafe(payload.(*errorspb.StringPayload).Msg)
+//@   requires[C06] typeis(payload, *errorspb.StringPayload) ==> wfR(payload.(*errorspb.StringPayload).Msg)
 //@   ensures !typeis(payload, *errorspb.StringPayload) ==> result == nil
 //@   ensures typeis(payload, *errorspb.StringPayload) ==> typeis(result, *withPrefix) && result.(*withPrefix).cause == cause && result.(*withPrefix).prefix == payload.(*errorspb.StringPayload).Msg
 
 //@ func decodeWithNewMessage
-//@   props C05 C01 C03
+//@   props C05 C01 C03 C06
 //@   requires cause != nil
 //@   requires[C03] typeis(payload, *errorspb.StringPayload) ==> rsafe(payload.(*errorspb.StringPayload).Msg)
+//@   requires[C06] typeis(payload, *errorspb.StringPayload) ==> wfR(payload.(*errorspb.StringPayload).Msg)
 //@   ensures !typeis(payload, *errorspb.StringPayload) ==> result == nil
 //@   ensures typeis(payload, *errorspb.StringPayload) ==> typeis(result, *withNewMessage) && result.(*withNewMessage).cause == cause && result.(*withNewMessage).message == payload.(*errorspb.StringPayload).Msg
 
